@@ -58,7 +58,7 @@ func Normalize(zone string) (string, error) {
 	}
 	// the result must be canonical: converting it again changes nothing and it still
 	// qualifies (an ASCII-only or empty punycode label decodes to something else)
-	if again, err := idna.ToASCII(uni); err != nil || again != uni || !certmagic.SubjectQualifiesForPublicCert(uni) {
+	if again, err := idna.ToASCII(uni); err != nil || again != uni || !certmagic.SubjectQualifiesForPublicCert(uni) || certmagic.SubjectIsIP(uni) {
 		return "", fmt.Errorf("acme: zone is not in canonical form")
 	}
 	return uni, nil
